@@ -24,7 +24,7 @@ ASSUMPTIONS = ["faults are injected at Python-level open/mkdir/write calls (not 
                "a fault the stack absorbs (e.g. zipfile retrying an open) is fine when the output equals the "
                "fault-free output", "pool shim M1 in-process so that fault points are deterministic"]
 REQUIRED_OBS = {"invocations": 150, "set:tools": 11, "default_output_forms": 30, "trailing_slash_forms": 30,
-                "fault_points_injected": 300, "faults_surfaced": 250, "missing_binary_forms": 6,
+                "fault_points_injected": 150, "faults_surfaced": 120, "missing_binary_forms": 6,
                 "audit_events": 500}
 TIMEOUT = {"quick": 900, "thorough": 3600}
 
